@@ -176,6 +176,7 @@ func run14(c *fw.Ctx) {
 	}
 	rec(nil)
 	argBuffer(c)
+	repeatFamily(c)
 	for _, f := range fns {
 		c.Family(f.name, fmt.Sprintf("%d argument tuples x 4 call paths x %d histories x recovery on/off", len(tuples(f)), len(hists)))
 		for _, h := range hists {
@@ -264,6 +265,111 @@ func argBuffer(c *fw.Ctx) {
 			}
 		}
 	}
+}
+
+// repeatFamily: ONE Invoker (one child VM) is used for two successive invocations; the first may end in any way
+// (value, thrown error in a nested callee after discarded tail self-calls, recovered Go panic, finally blocks).
+// In the script the two calls are ordinary calls wrapped in try-catch. (A Go panic that leaves the invoked function
+// uncaught is not among them: a VM reports such a panic with a "panic:" prefix and a Go stack when it leaves Run, so its
+// text legitimately differs between a child VM and an in-script call.)
+func repeatFamily(c *fw.Ctx) {
+	c.Family("repeat", "6 functions x every ordered pair of their argument tuples x pooled/unpooled Invoker x recovery on/off; one Invoker, two invocations")
+	type rf struct {
+		def     string
+		tuples  [][]string
+		recOnly bool // needs recovery (a Go panic is involved)
+	}
+	defs := []rf{
+		{"thrower := func() { throw error(\"t\") }; var f; f = func(n, v) { if n == 0 { if v == 0 { thrower() }; return v }; f(n - 1, v) }",
+			[][]string{{"0", "0"}, {"0", "5"}, {"2", "0"}, {"2", "5"}}, false},
+		{"thrower := func() { throw error(\"t\") }; var f; f = func(n, v) { if n == 0 { if v == 0 { thrower() }; return v }; return f(n - 1, v) }",
+			[][]string{{"0", "0"}, {"0", "5"}, {"2", "0"}, {"2", "5"}}, false},
+		{"f := func(x) { try { if x == 1 { PANIC() } } catch e { return \"caught\" } finally { L(x) }; return x }", [][]string{{"0"}, {"1"}, {"2"}}, true},
+		{"f := func(k) { try { if k == 1 { throw \"s\" }; return k } finally { L(k) } }", [][]string{{"0"}, {"1"}, {"2"}}, false},
+		{"zero := 0; g := func(k) { try { if k { return 1 / zero }; return k } finally { L(9) } }; f := func(k) { a := [k, k]; return [g(k), a] }", [][]string{{"0"}, {"1"}}, false},
+		{"n := 0; f := func(k) { n++; if k == 1 { return [][n] }; return n }", [][]string{{"0"}, {"1"}}, false},
+	}
+	for di, d := range defs {
+		for i1, a1 := range d.tuples {
+			for i2, a2 := range d.tuples {
+				for _, pooled := range []bool{false, true} {
+					for _, recOn := range []bool{true, false} {
+						if !c.Next() {
+							continue
+						}
+						if d.recOnly && !recOn {
+							continue
+						}
+						key := fmt.Sprintf("repeat def=%d args=%d,%d pooled=%v recover=%v", di, i1, i2, pooled, recOn)
+						if c.Skip(key) {
+							continue
+						}
+						c.Nontrivial()
+						c.AddStates(1)
+						call := func(as []string) string {
+							return "try { r = append(r, f(" + strings.Join(as, ", ") + ")) } catch e { r = append(r, S(e)) }"
+						}
+						pre := "global (CALL2, PANIC, L, S)\n" + d.def + "\n"
+						inScript := pre + "r := []\n" + call(a1) + "\n" + call(a2) + "\nreturn r"
+						viaGo := pre + "return CALL2(f, [" + strings.Join(a1, ", ") + "], [" + strings.Join(a2, ", ") + "])"
+						var log []string
+						globals := func() ugo.Map {
+							return ugo.Map{
+								"L": &ugo.Function{Name: "L", Value: func(a ...ugo.Object) (ugo.Object, error) {
+									log = append(log, uv.Repr(a[0]))
+									return ugo.Undefined, nil
+								}},
+								"PANIC": &ugo.Function{Name: "PANIC", Value: func(...ugo.Object) (ugo.Object, error) { panic("host function panics") }},
+								"S":     &ugo.Function{Name: "S", Value: func(a ...ugo.Object) (ugo.Object, error) { return ugo.String(cutStack(a[0].String())), nil }},
+								"CALL2": &ugo.Function{Name: "CALL2", ValueEx: func(call ugo.Call) (ugo.Object, error) {
+									inv := ugo.NewInvoker(call.VM(), call.Get(0))
+									if pooled {
+										inv.Acquire()
+										defer inv.Release()
+									}
+									out := ugo.Array{}
+									for i := 1; i <= 2; i++ {
+										args, _ := call.Get(i).(ugo.Array)
+										v, err := inv.Invoke(args...)
+										if err != nil {
+											out = append(out, ugo.String(cutStack(err.Error())))
+										} else {
+											out = append(out, v)
+										}
+									}
+									return out, nil
+								}},
+							}
+						}
+						log = nil
+						want := run.Source(inScript, run.Options{Globals: globals(), NoRecover: !recOn})
+						wantLog := fmt.Sprint(log)
+						log = nil
+						got := run.Source(viaGo, run.Options{Globals: globals(), NoRecover: !recOn})
+						gotLog := fmt.Sprint(log)
+						c.AddTraces(1)
+						c.AddTransitions(4)
+						if want.CompileErr != "" || got.CompileErr != "" {
+							c.Infra("repeat program does not compile: %s %s", want.CompileErr, got.CompileErr)
+							continue
+						}
+						if got.Key() != want.Key() || gotLog != wantLog {
+							c.Violation(key, fmt.Sprintf("two invocations through one Invoker: %s log=%s; the same two calls in the script: %s log=%s", got.String(), gotLog, want.String(), wantLog),
+								map[string]any{"program_via_go": viaGo, "program_in_script": inScript})
+						}
+					}
+				}
+			}
+		}
+	}
+}
+
+// cutStack removes the Go stack trace that a recovered panic carries in its message.
+func cutStack(s string) string {
+	if i := strings.Index(s, "\nGo Stack:"); i >= 0 {
+		return s[:i]
+	}
+	return s
 }
 
 func program(f fn, h []int, args []string, viaGo bool, nested bool) string {
